@@ -20,6 +20,16 @@ def main():
     here = os.path.dirname(os.path.dirname(os.path.abspath(__file__)))
     if here not in sys.path:
         sys.path.append(here)
+    cov = None
+    if os.environ.get("VERIF_COV"):
+        # development aid (tools/coverage_probe.sh): which lines of the tree under test do the checks execute at all?
+        try:
+            import coverage
+            cov = coverage.Coverage(data_file=os.path.join(os.environ["VERIF_COV"], "cov"), data_suffix=True,
+                                    include=["*/stackscope/*"], branch=True)
+            cov.start()
+        except ImportError:
+            cov = None
     try:
         import stackscope  # noqa: F401
     except BaseException:
@@ -45,6 +55,9 @@ def main():
         except BaseException:
             resp = {"harness_error": traceback.format_exc()[-3000:]}
         out.write(json.dumps(resp, default=repr) + "\n")
+    if cov is not None:
+        cov.stop()
+        cov.save()
 
 
 if __name__ == "__main__":
